@@ -139,6 +139,48 @@ def graphs():
         return list(g) + [(h, p, Literal("list is subject"))]
     out.append(("list as subject", g_of(list_as_subject)))
     out.append(("nil as subject", g_of(lambda: [(RDF.nil, p, Literal(1)), (s, p, RDF.nil)])))
+    # ---- numeric literals whose lexical form is not what the Turtle shorthand would write
+    out.append(("decimals without a point", g_of(lambda: [(s, p, Literal(x, datatype=XSD.decimal)) for x in ("1", "-5", "0", "+7")])))
+    out.append(("decimals with a point", g_of(lambda: [(s, p, Literal(x, datatype=XSD.decimal)) for x in ("1.50", "0.1", "-0.0", "10.00")])))
+    out.append(("doubles with many digits", g_of(lambda: [(s, p, Literal(v)) for v in (0.123456789, 1 / 3, 123456789.123, 5e-324, 1.7976931348623157e308)])))
+    out.append(("doubles by lexical form", g_of(lambda: [(s, p, Literal(x, datatype=XSD.double)) for x in ("1", "1.5", "1.123456789012E0", "-0.0E0", "1E400")])))
+    out.append(("integers by lexical form", g_of(lambda: [(s, p, Literal(x, datatype=XSD.integer)) for x in ("+3", "-0", "00")])))
+
+    # ---- more list shapes
+    def shared_tail():
+        a, b, t = bn(3)
+        return [(s, p, a), (s, q, b), (a, RDF.first, Literal(1)), (a, RDF.rest, t), (b, RDF.first, Literal(2)), (b, RDF.rest, t),
+                (t, RDF.first, Literal(3)), (t, RDF.rest, RDF.nil)]
+    out.append(("two list heads sharing one tail", g_of(shared_tail)))
+
+    def iri_cell():
+        a = bn(1)[0]
+        c = U("cell2")
+        return [(s, p, a), (a, RDF.first, Literal(1)), (a, RDF.rest, c), (c, RDF.first, Literal(2)), (c, RDF.rest, RDF.nil)]
+    out.append(("list with an IRI-named inner cell", g_of(iri_cell)))
+
+    def literal_rest():
+        a = bn(1)[0]
+        return [(s, p, a), (a, RDF.first, Literal(1)), (a, RDF.rest, Literal(""))]
+    out.append(("list whose rdf:rest is a literal", g_of(literal_rest)))
+
+    def two_firsts_no_rest():
+        a = bn(1)[0]
+        return [(s, p, a), (a, RDF.first, Literal(1)), (a, RDF.first, Literal(2))]
+    out.append(("cell with two firsts and no rest", g_of(two_firsts_no_rest)))
+
+    def typed_cells():
+        a, b = bn(2)
+        return [(s, p, a), (a, RDF.type, RDF.List), (a, RDF.first, Literal(1)), (a, RDF.rest, b), (b, RDF.type, RDF.List),
+                (b, RDF.first, Literal(2)), (b, RDF.rest, RDF.nil)]
+    out.append(("list cells typed rdf:List", g_of(typed_cells)))
+
+    def dup_member():
+        g = Graph()
+        h, m = BNode(), BNode()
+        Collection(g, h, [m, m, Literal(1)])
+        return list(g) + [(s, p, h), (m, q, Literal("member"))]
+    out.append(("list with a blank node member twice", g_of(dup_member)))
     out.append(("empty graph", g_of(lambda: [])))
     return out
 
@@ -243,11 +285,11 @@ class RoundTrip(Suite):
         if sg != sh:
             lost, new = list((sg - sh).items())[:2], list((sh - sg).items())[:2]
             return f"terms-differ[{f}]: {name!r}: lost {lost} new {new}"
-        if f != "hext" and f != "json-ld":
+        if f != "hext":
             sg2, sh2 = term_sig(g), term_sig(h)
             if sg2 != sh2:
                 return f"simple-vs-xsd-string[{f}]: {name!r}: xsd:string typing changed although the syntax can express it"
-        if f in ("hext", "json-ld"):
+        if f == "hext":
             g, h = strip_xsd_string(g), strip_xsd_string(h)      # the one identification the property allows there
         if not isomorphic(g, h):
             return f"not-isomorphic[{f}]: {name!r}: blank-node structure changed"
